@@ -219,9 +219,37 @@ fn __verif_n_libfunc_sweep() {
         }).unwrap() }).collect();
         hs.into_iter().map(|h| h.join().unwrap()).collect()
     });
+    // type declarations: registry + type sizes never unwind (get_type_size_map over boundary shapes)
+    let mut parts = parts;
+    {
+        let mut part = Part::default();
+        let mut one_ty = |part: &mut Part, name: &str, p: Program| {
+            part.cases += 1;
+            let mut p = p;
+            match registry_autodecl(&mut p) {
+                Err(m) => part.fails.push(("C14", format!("{name}: registry: {}", m.chars().take(60).collect::<String>()), format!("{p}").replace('\n', " "), format!("ProgramRegistry::new panicked: {m}"))),
+                Ok(None) => {}
+                Ok(Some(_)) => {
+                    part.accepted += 1;
+                    if let Err(e) = catch_unwind(AssertUnwindSafe(|| ProgramRegistryInfo::new(&p).is_ok())) {
+                        let m = if let Some(s) = e.downcast_ref::<String>() { s.clone() } else if let Some(s) = e.downcast_ref::<&str>() { s.to_string() } else { "panic".into() };
+                        if !part.fails.iter().any(|f| f.1.starts_with(name)) { part.fails.push(("C14", format!("{name}: type sizes: {}", m.chars().take(60).collect::<String>()), format!("{p}").replace('\n', " "), format!("ProgramRegistryInfo::new (type sizes) panicked: {m}"))); }
+                    }
+                }
+            }
+        };
+        for id in spec_universe::GENERIC_TYPE_IDS {
+            let t = Target::Type(id.to_string());
+            let name = t.name();
+            one_ty(&mut part, &name, assemble(&base, &[], &t));
+            for a in uni.iter() { one_ty(&mut part, &name, assemble(&base, &[a], &t)); }
+            for a in uni.iter() { for b in uni.iter() { one_ty(&mut part, &name, assemble(&base, &[a, b], &t)); } }
+        }
+        parts.push(part);
+    }
     let sum = |f: fn(&Part) -> u64| parts.iter().map(f).sum::<u64>();
     let (cases, accepted, compiled, cap, ccost) = (sum(|p| p.cases), sum(|p| p.accepted), sum(|p| p.compiled), sum(|p| p.compared_ap), sum(|p| p.compared_cost));
-    let bound = format!("{} generic libfunc ids x argument lists of length 0..=2 over {} boundary types/values: {cases} declarations, {accepted} accepted, {compiled} one-invocation programs compiled; {cap} (branch, path) ap comparisons, {ccost} cost comparisons", targets.len(), uni.len());
+    let bound = format!("{} generic libfunc ids (and every generic type id, through the type-size map) x argument lists of length 0..=2 over {} boundary types/values: {cases} declarations, {accepted} accepted, {compiled} one-invocation programs compiled; {cap} (branch, path) ap comparisons, {ccost} cost comparisons", targets.len(), uni.len());
     for (prop, id) in [("C14", "total"), ("C17", "ap_declared_equals_emitted"), ("C04", "cost_covers_steps")] {
         let mine: Vec<_> = parts.iter().flat_map(|p| p.fails.iter()).filter(|f| f.0 == prop).collect();
         for (k, (_, key, input, why)) in mine.iter().enumerate() {
